@@ -169,12 +169,12 @@ func runEngine(c *core.Ctx, runs []famRun) (*engineResult, error) {
 		switch kind {
 		case "g":
 			sh := byPkg[rest]
-			cand = &candidate{group: sh.Fam + " :: " + b.Why, size: sh.Size, witness: sh.Call + " :: " + b.Why,
+			cand = &candidate{group: famKey(sh) + " :: " + b.Why, size: sh.Size, witness: sh.Call + " :: " + b.Why,
 				detail: fmt.Sprintf("goderive exit=%d: %s", sh.GenExit, trim(sh.GenErr, 400)),
 				replay: map[string]interface{}{"source": sh.Src, "goderive_exit": sh.GenExit, "goderive_output": sh.GenErr}}
 		case "c":
 			sh := byPkg[rest]
-			cand = &candidate{group: sh.Fam + " :: " + b.Why + ": " + sh.CompileErr, size: sh.Size,
+			cand = &candidate{group: famKey(sh) + " :: " + b.Why + ": " + sh.CompileErr, size: sh.Size,
 				witness: sh.Call + " :: " + b.Why + ": " + sh.CompileErr,
 				detail:  trim(sh.CompileAll, 600),
 				replay:  map[string]interface{}{"source": sh.Src, "derived": sh.Derived, "compiler": sh.CompileAll}}
@@ -188,7 +188,7 @@ func runEngine(c *core.Ctx, runs []famRun) (*engineResult, error) {
 			rejected[b.ID] = true
 			o := obs[id]
 			env := caseEnv(cs, b.At)
-			cand = &candidate{group: sh.Fam + " :: " + b.Why, size: append(append([]int{}, sh.Size...), caseSize(cs, b.At)...),
+			cand = &candidate{group: famKey(sh) + " :: " + b.Why, size: append(append([]int{}, sh.Size...), caseSize(cs, b.At)...),
 				witness: strings.TrimSpace(sh.Call+" "+env) + " :: " + b.Why,
 				detail:  fmt.Sprintf("observed %s; expected (one behaviour of the specification) %s", mustJSON(history(cs.Fam, cs.C.Src, o)), string(cs.ExpRaw)) + panicNote(o),
 				replay: map[string]interface{}{"source": sh.Src, "derived": sh.Derived, "case": map[string]interface{}{"cfg": cs.CfgRaw, "in": cs.InRaw},
@@ -212,6 +212,14 @@ func runEngine(c *core.Ctx, runs []famRun) (*engineResult, error) {
 		c.Report(cand.witness, fmt.Sprintf("%d observations rejected for this reason; smallest: %s", count[g], cand.detail), cand.replay)
 	}
 	return er, nil
+}
+
+// famKey: defect classes are kept apart per family, and for Plumb per plugin (curry, uncurry, flip, apply, tuple).
+func famKey(sh *Shape) string {
+	if sh.Fam == "plumb" {
+		return "plumb/" + sh.Cases[0].C.Kind
+	}
+	return sh.Fam
 }
 
 func panicNote(o *RawObs) string {
